@@ -9,7 +9,8 @@ CONFIG = {
                 "(CreateIterator / FieldDimensions / IteratorCost sequences on one mapping) return the single-node answer or an error. The model is diffed on every run "
                 "against the real ClusterShardMapper + remoteShardGroup + MetaExecutor + coordinator.Service + tsdb.Store on an in-process 2-3 node cluster with injected faults. "
                 "Partial: a stream closed at a frame boundary (or right after a frame's length prefix) is accepted as complete (open finding c05-stream-cut-at-frame-boundary, excluded from the link theorem by hypothesis); "
-                "MapType is not driven end to end (only its reply handling). "
+                "MapType over the fan-out: for every list of answers the reported type is one of them and none has precedence over it (map_type_max); driven end to end (kind mtype: a field whose type differs between shards, "
+                "coordinator knowing / not knowing it locally) against the single store; a failed remote MapType still degrades to Unknown (no error channel). "
                 "Storage-read streams (MetaExecutor.ReadFilter / ReadGroup -> storeStreamReceiver.Recv -> reads.ResultSetStreamReader / GroupResultSetStreamReader): for every sequence of messages (any payload bytes "
                 "below MaxMessageSize) and every byte offset at which the connection is closed, Recv hands on exactly the messages lying completely before the cut, intact and in order, "
                 "reports an error iff the cut lies strictly inside a message (type byte delivered, size or value incomplete; repaired by a fix: commit - before it every cut was read as the end of the stream), "
@@ -18,13 +19,20 @@ CONFIG = {
                 "against MetaExecutor.ReadFilter/ReadGroup -> TCP proxy cutting the byte stream -> coordinator.Service -> storage.Store -> tsdb.Store. "
                 "SHOW fan-out (ClusterTSDBStore.MeasurementNames / TagKeys / TagValues over MetaExecutor.ExecuteQuery): for every layout and node behaviour (serve | error reply | down) the listing is the sorted union over the "
                 "answering nodes, never an error; it equals the single-node listing whenever every shard has an answering owner; Partial: when some shard has no answering owner the listing is silently incomplete "
-                "(open finding c05-show-fanout-drops-node-errors, show_silently_incomplete_refuted); diffed against the real ClusterTSDBStore on the in-process cluster with nodes down / replying with errors.",
+                "(open finding c05-show-fanout-drops-node-errors, show_silently_incomplete_refuted); diffed against the real ClusterTSDBStore on the in-process cluster with nodes down / replying with errors. "
+                "Typed merge of the fan-out (ClusterShardMapping.CreateIterator -> Iterators.Merge, first input decides the element type, inputs of other types are closed and dropped): for every field type, every list of sources "
+                "(local or remote, any number holding no such measurement and answering with type Unknown) and every arrival order (any permutation) the merged stream holds every row of every source once and has the field's type "
+                "(typed_merge_complete; repaired by a fix: commit - before it an Unknown reply became an empty FLOAT reader and, arriving first, made the merge drop every integer/string/boolean input: typed_merge_complete_refuted, "
+                "typed_merge_pinned_partial); diffed end to end on the in-process cluster (integer field, nodes without the measurement, replies released in every order). "
+                "Merged storage result sets (reads.NewMergedResultSet behind ClusterStoreMapping.ReadFilter, and the GroupNone/GroupBy merges using the same heap): for every list of inputs, each failing at any point including before "
+                "its first series, and every order, draining ends with an error iff an input failed and otherwise delivers every series once (rs_merge_complete_or_error; repaired by a fix: commit - before it resultSetHeap.init "
+                "closed an input that failed before its first series without reading Err(): rs_merge_error_surfaces_refuted); diffed against the real NewMergedResultSet over real ResultSetStreamReaders.",
         "note": "Trusts Coq kernel, the harness (fault-injecting connection wrapper, canonicalisers), loopback TCP; opt.NodeID > 0 (explicit single-node read) excluded; MapType has no error channel.",
         "technique": "Coq proof (induction over shard lists / retry rounds with a decreasing clean-owner measure) on a Gallina model + differential correspondence against an in-process mini-cluster",
     },
     "harness": "h_c05",
     "level": "proof",
-    "extra_proof_files": ["ProofsA", "ProofsB", "ProofsC", "ProofsStream", "ProofsShow"],
+    "extra_proof_files": ["ProofsA", "ProofsB", "ProofsC", "ProofsStream", "ProofsShow", "ProofsMerge"],
     "coq_deps": ["C15"],
     "n": {"quick": 900, "thorough": 12000},
     "shard": 150,
@@ -44,23 +52,35 @@ CONFIG = {
             "exactly at each message boundary, full length; worlds with float data (one message) and 9000/30000-byte strings (several 64 KiB messages); reference = the same request on the single store, no network); "
             "offsets of generated cases biased to boundaries, after the type byte, inside the size, after the size, last byte missing. "
             "SHOW cases: kind show (ClusterTSDBStore.MeasurementNames / TagKeys / TagValues on 2-4 node clusters, ring or arbitrary ownership, tagged series per shard, each other node down 25% / error reply 20%; "
-            "designed: the Coq witness layout and the same data with a covering replica x coordinator x {down, error reply} sets); reference = the listing of the single store holding every shard",
+            "designed: the Coq witness layout and the same data with a covering replica x coordinator x {down, error reply} sets); reference = the listing of the single store holding every shard. "
+            "Typed-merge cases: kind tmerge (SELECT of an INTEGER field of measurement mi through the real ClusterShardMapper / MetaExecutor / coordinator.Service on 3-4 node clusters, one owner per shard, shards with and without the measurement, "
+            "the remote replies released 200 ms apart in a chosen order; designed: the Coq witness (one node without the measurement, two with integer rows, coordinator holding nothing) in all 6 arrival orders, coordinator holding a shard with / without the measurement, "
+            "nobody holding it; generated: 2-4 shards, 55% holding 1-3 rows, random owners and order); reference = the same iterator on the single store. "
+            "kind mtype (ClusterShardMapping.MapType of field w of measurement mt whose type - float / integer / string / boolean / absent - differs per shard, 2-4 nodes, every coordinator; designed: local integer + remote float, three types, nobody); "
+            "kind rsmerge (real reads.NewMergedResultSet over 1-4 real ResultSetStreamReaders fed by in-memory streams: 0-6 series spread over the inputs, each input failing with p=25% after its series; designed: the witness in both orders, failure after a series, a lone failing input, two inputs without series)",
     "trusted_base": [
         "C05: node behaviour enters the model as the table of outcomes the fault injector applied to the requests that reached each node (plus the set of refusing nodes); the injector is part of the harness",
         "C05: the random oracle of mapShards is read off the observed mapping (index of the chosen owner); the model must reproduce the whole mapping from it",
         "C05: row content is modelled as a set of row ids per shard (unique timestamps, one series); merge order, field typing and aggregation are the real code's and only compared through the single-store reference",
-        "C05: opt.NodeID > 0 and MapType (no error channel) are outside the model; all measurements hold identical data, so sources are distinguished by (db, rp) key only",
+        "C05: opt.NodeID > 0 and MapType under faults (no error channel) are outside the model (MapType of answering nodes: MergeModel.map_type); all measurements hold identical data, so sources are distinguished by (db, rp) key only",
         "C05 streams: protobuf / JSON decoding of message payloads is not modelled (payloads are handed on as bytes; the harness re-marshals what Recv returned and only feeds payloads written by the real sender); "
         "the sender side (reads.ResponseWriter, storeStreamSender) is observed, not modelled: the message structure of the node's reply is read off the bytes the proxy recorded; "
         "'use of closed network connection' (local close) -> io.EOF is not modelled; partition-key order check of the group reader not modelled (inputs keep group ids ascending); the cutting proxy is part of the harness",
         "C05 SHOW: a listing is a set of abstract items (measurement names, (measurement, key), (measurement, key, value)); what a node answers is modelled as the items of the shards it owns "
         "(tsdb.Store.TagKeys over the shards it holds) and checked against the real reference listing; errors of the coordinator's own store are in the model but not injected by the harness",
+        "C05 typed merge: the arrival order of the replies is imposed by the harness (each node's store wrapper sleeps (p+1) x 200 ms before serving; the local mapping needs no network and is taken to arrive first) and is not observed at the client; "
+        "a source's reply type is derived from the data (integer iff one of its shards holds the measurement); the order inside the merged stream, mixed field types across shards (an upstream InfluxDB matter: wf_sources assumes one type per field) "
+        "and the unordered NewMergeIterator / call-iterator path are not modelled (same coerce rule)",
+        "C05 merged result sets: inputs are real ResultSetStreamReaders over in-memory StreamReaders (not TCP); a merged stream is the sorted list of series ids, the caller is assumed to drain it and then read Err(); "
+        "the GroupNone / GroupBy group merges share resultSetHeap.init and the repair but are not driven by the harness; groupByMergedGroupResultSet.next() used to overwrite an earlier input's error with a later input's nil error (repaired by a fix: commit after a probe; neither modelled nor driven by the harness)",
     ],
     "modelled": "coordinator/shard_mapper.go mapShards (NodeID = 0 branch), shuffleShards, the retry loops of remoteShardGroup.{CreateIterator,FieldDimensions,IteratorCost} (same shape as ReadFilter/ReadGroup), "
                 "ClusterShardMapping fan-out/merge, MetaExecutor reply handling (client_response), ReaderIterator end-of-stream rule are modelled (theories/C05/Model.v); "
                 "coordinator/store_stream.go storeStreamReceiver.Recv over ReadType/ReadLV (tied to C15's read_tlv by recv_step_is_read_tlv), MetaExecutor.ReadFilter/ReadGroup response + stream, "
                 "storage/reads frameReader.peekFrame (ErrStreamNoData rule) and the ResultSetStreamReader / GroupResultSetStreamReader state machines (theories/C05/StreamModel.v); "
                 "MetaExecutor.ExecuteQuery and ClusterTSDBStore.{MeasurementNames,TagKeys,TagValues} merge (theories/C05/ShowModel.v); "
+                "MetaExecutor.CreateIterator's handling of the reply type + query.NewReaderIterator default branch + Iterators.filterNonNil/dataType/coerce/new<T>Iterators (type of the first input decides) as used by "
+                "ClusterShardMapping.CreateIterator, and storage/reads resultSetHeap.init + mergedResultSet error rule (theories/C05/MergeModel.v); "
                 "tsdb iterators, protobuf bodies, connection pool, TCP are exercised by the harness but not modelled",
     "assumptions": ["every shard in the metadata view has at least one owner (C06 invariant)",
                     "a connection closed by the peer after it has read the whole request is seen by the client as EOF (FIN), as on loopback"],
